@@ -77,6 +77,135 @@ def impl_l1(arg):
         return compute_l1_key(bytes(sd), uuid.UUID(bytes_le=bytes(rkid)), l0, bytes(rk), hash_of_id(hid))
 
 
+# ---- the top of the chain, independently of the model (MS-GKDI 3.1.4.1.2; Coq counterpart: Spec/GkdiRootSpec.v) -------------
+def ref_i32(v):
+    """signed 32-bit little endian, two's complement (no int.to_bytes(signed=True): that is what the library calls)"""
+    if not -2 ** 31 <= v < 2 ** 31:
+        raise OverflowError(v)
+    return bytes(((v % 2 ** 32) >> (8 * k)) & 255 for k in range(4))
+
+
+def ref_ctx(rkid, l0, a, b):
+    return bytes(rkid) + ref_i32(l0) + ref_i32(a) + ref_i32(b)
+
+
+def spec_l1(hid, sd, rkid, l0, rk):
+    """The L1 key at index 31 from the root key bytes under the symbolic KDF, or None when L0 has no encoding."""
+    try:
+        seed = skdf(hid, bytes(rk), ref_ctx(rkid, l0, -1, -1))
+        return skdf(hid, seed, ref_ctx(rkid, l0, 31, -1) + bytes(sd))
+    except OverflowError:
+        return None
+
+
+def _real_kdf(hid, key, context):
+    from ..hostile import _sp800_108_ctr_hmac
+    from ..impl_util import HASH_NAMES
+
+    return _sp800_108_ctr_hmac(HASH_NAMES[hid].lower(), bytes(key), LABEL, bytes(context), 64)
+
+
+def ref_real_l1(hid, sd, rkid, l0, rk):
+    """hmac/hashlib only: SP800-108 counter-mode HMAC from the root key bytes."""
+    seed = _real_kdf(hid, rk, ref_ctx(rkid, l0, -1, -1))
+    return _real_kdf(hid, seed, ref_ctx(rkid, l0, 31, -1) + bytes(sd))
+
+
+def ref_real_key(hid, sd, rkid, l0, rk, l1, l2):
+    k = ref_real_l1(hid, sd, rkid, l0, rk)
+    for n in range(30, l1 - 1, -1):
+        k = _real_kdf(hid, k, ref_ctx(rkid, l0, n, -1))
+    k = _real_kdf(hid, k, ref_ctx(rkid, l0, l1, 31))
+    for m in range(30, l2 - 1, -1):
+        k = _real_kdf(hid, k, ref_ctx(rkid, l0, l1, m))
+    return k
+
+
+def impl_real(arg):
+    """the library with the real `cryptography` primitives: L1(31) from the root key, then the key at (r1, r2) from the (31, 31) envelope"""
+    import uuid
+
+    from dpapi_ng._gkdi import compute_l1_key, compute_l2_key
+
+    hid, sd, rkid, l0, rk, r1, r2 = arg
+    l1 = compute_l1_key(bytes(sd), uuid.UUID(bytes_le=bytes(rkid)), l0, bytes(rk), hash_of_id(hid))
+    return [l1, compute_l2_key(hash_of_id(hid), r1, r2, mk_env(l0, 31, 31, rkid, l1, b""))]
+
+
+def pred_real(arg, out):
+    hid, sd, rkid, l0, rk, r1, r2 = arg
+    want = [ref_real_l1(hid, sd, rkid, l0, rk), ref_real_key(hid, sd, rkid, l0, rk, r1, r2)]
+    if isinstance(out, Err) or out is None:
+        return f"the library failed ({repr(out)[:80]}) where MS-GKDI defines a key"
+    got = [bytes(x) for x in out]
+    if got[0] != want[0]:
+        return "L1 key at index 31 differs from KDF(L0 seed, 'KDS service', ctx(L0,31,-1) || SD) computed with hmac/hashlib from the root key bytes"
+    if got[1] != want[1]:
+        return f"key at ({r1}, {r2}) differs from the SP800-108 chain computed with hmac/hashlib from the root key bytes"
+    return None
+
+
+def pred_l1(arg, out):
+    """chain.l1 runs under the symbolic KDF: the output must be the derivation term of the specification; and the same
+    arguments with the real primitives must give the hmac/hashlib reference."""
+    hid, sd, rkid, l0, rk = arg
+    want = spec_l1(hid, sd, rkid, l0, rk)
+    if want is None:
+        if isinstance(out, Err) and out.name == "OverflowError":
+            return None
+        return f"L0 = {l0} has no signed 32-bit encoding but the library returned {repr(out)[:80]}"
+    if isinstance(out, Err) or out is None or bytes(out) != want:
+        return "L1(31) is not KDF(KDF(root key, label, ctx(L0,-1,-1)), label, ctx(L0,31,-1) || SD) (symbolic KDF)"
+    if len(rk) == 0:
+        return None  # HMAC with an empty key: refused by the real primitive, nothing to compare
+    from ..core import run_impl
+    from ..val import dec
+
+    return pred_real([hid, sd, rkid, l0, rk, 31, 31], dec(run_impl(impl_real, [hid, sd, rkid, l0, rk, 31, 31])))
+
+
+def real_cases(ctx: Ctx):
+    out = []
+    edge = [(31, 31), (31, 0), (0, 31), (0, 0), (30, 30), (5, 7), (31, 30), (30, 31)]
+    l0s = [361, 0, 1, -1, 2 ** 31 - 1, -2 ** 31]
+    n = ctx.n(40, 400)
+    for k in range(n):
+        r1, r2 = edge[k % len(edge)] if k < 2 * len(edge) else (ctx.rng.randrange(32), ctx.rng.randrange(32))
+        sd = bytes(ctx.rng.randrange(256) for _ in range(ctx.rng.choice([0, 1, 20, 76, 100])))
+        rk = bytes(ctx.rng.randrange(256) for _ in range(ctx.rng.choice([1, 32, 64, 64, 200])))
+        out.append([1 + k % 4, sd, bytes(ctx.rng.randrange(256) for _ in range(16)), l0s[(k // 4) % len(l0s)], rk, r1, r2])
+    return out
+
+
+ORACLE_REPLAY = {"chain.real": (impl_real, pred_real)}
+
+
+def oracles(ctx: Ctx) -> None:
+    """The property predicates on the implementation also where model and implementation agree: the symbolic chain.l1 cases
+    against the specification's derivation term, and the real primitives against hmac/hashlib from the root key bytes."""
+    if getattr(ctx, "replay_only", False):
+        return
+    from ..core import run_impl
+    from ..val import dec, enc
+
+    bad = 0
+    if not ctx.corr.get("chain.l1", {}).get("disagreements"):
+        for c in getattr(ctx, "_c02_l1cases", []):
+            ctx.oracle_runs += 1
+            why = pred_l1(c, dec(run_impl(impl_l1, c)))
+            if why and bad < 2:
+                bad += 1
+                ctx.violation("failing-input", "oracle:chain.l1", {"unit": "chain.l1", "input": enc(c), "why": why}, key=f"chain.l1:{enc(c)[:80]}")
+    bad = 0
+    for c in real_cases(ctx):
+        ctx.oracle_runs += 1
+        why = pred_real(c, dec(run_impl(impl_real, c)))
+        if why and bad < 2:
+            bad += 1
+            ctx.violation("failing-input", "oracle:chain.real", {"unit": "chain.real", "input": enc(c), "why": why}, key=f"chain.real:{enc(c)[:80]}")
+    ctx.notes.append("oracle chain.real: library with real primitives = hmac/hashlib SP800-108 chain from the root key bytes")
+
+
 def pred_l2(arg, out):
     want = spec_l2(*arg)
     if want is None:
@@ -147,9 +276,10 @@ def units(ctx: Ctx, only=None):
                 for k1 in (b"\x01" * 8, b"\x02" * 8):
                     cases.append([hid, 3, 30, 5, 7, 361, rkx, k1, b"\x09" * 8 if rep else b"\x08" * 8])
                     cases.append([hid, 5, 6, 5, 7, 361, rkx, k1, b"\x09" * 8 if rep else b"\x08" * 8])
+    ctx._c02_l1cases = l1cases  # type: ignore[attr-defined]
     return [
         Unit("chain.l2", "chain.l2", cases, impl_l2, prop_pred=pred_l2),
-        Unit("chain.l1", "chain.l1", l1cases, impl_l1),
+        Unit("chain.l1", "chain.l1", l1cases, impl_l1, prop_pred=pred_l1),
     ]
 
 
